@@ -169,10 +169,11 @@ def check(rep, ctx):
         rep.check(R_V, not pr and mx in (5, 10) and a["overflow_exc"] == ["ValueError"], construct=fn,
                   stmt=f"varint reader, at most {mx} bytes, then {a['overflow_exc']}", message="; ".join(pr) or f"max {mx}, overflow {a['overflow_exc']}",
                   file=rfile, line=a["line"], instance=f"{fn}|{mx}")
-    w = watoms[0]
-    pr = varint.check_varint_writer(w)
-    rep.check(R_V, not pr and w["max_bytes"] == 10, construct=w["fn"], stmt=f"varint writer, {w['max_bytes']} paths",
-              message="; ".join(pr) or f"{w['max_bytes']} paths", file=wfile, line=w["line"])
+    w = max(watoms, key=lambda a: a["max_bytes"])
+    for wa in {a["fn"]: a for a in watoms}.values():
+        pr = list(wa.get("problems") or [])
+        rep.check(R_V, not pr and (wa is not w or wa["max_bytes"] == 10), construct=wa["fn"], stmt=f"varint writer, up to {wa['max_bytes']} bytes",
+                  message="; ".join(pr[:3]) or f"{wa['max_bytes']} bytes at most", file=wfile, line=wa["line"], instance=f"writer|{wa['fn']}")
     for (fn, mx), a in sorted(ratoms.items()):
         pr = varint.check_roundtrip(a, w)
         rep.check(R_V, not pr, construct=fn, stmt=f"reader({mx}) after writer", message="; ".join(pr), file=rfile, line=a["line"],
